@@ -3,8 +3,10 @@ usage: python3 tools/regress_seeds.py [ids...]   -> writes seeded/REGRESSION.md"
 import json, os, re, subprocess, sys, tempfile, shutil, time
 root = "/verif/seeded"
 ids = sys.argv[1:] or sorted(d for d in os.listdir(root) if re.match(r"C\d\d_\d+$", d))
-rows = []
-for sid in ids:
+from concurrent.futures import ThreadPoolExecutor
+
+
+def one(sid):
     meta = json.load(open(f"{root}/{sid}/meta.json"))
     m = re.match(r"(C\d\d)", meta.get("detected_by", ""))
     check = m.group(1) if m else meta["breaks_property"]
@@ -13,16 +15,26 @@ for sid in ids:
         subprocess.run(f"git -C /repo archive HEAD src | tar -x -C {d} && cp /repo/src/easynetwork/version.py {d}/src/easynetwork/version.py", shell=True, check=True)
         p = subprocess.run(["patch", "-s", "-p1", "-i", f"{root}/{sid}/patch.diff"], cwd=d, capture_output=True, text=True)
         if p.returncode != 0:
-            rows.append((sid, check, "PATCH DOES NOT APPLY", 0)); continue
+            return (sid, check, "PATCH DOES NOT APPLY", 0)
         evd = tempfile.mkdtemp(prefix="mutev_", dir="/tmp")
         t0 = time.time()
-        r = subprocess.run(["/venv/bin/python", "-m", "vf.check", check, "--tier", "quick"], cwd="/verif", env=dict(os.environ, VERIF_REPO=d, VERIF_EVIDENCE_DIR=evd), capture_output=True, text=True, timeout=3000)
+        try:
+            r = subprocess.run(["/venv/bin/python", "-m", "vf.check", check, "--tier", "quick"], cwd="/verif", env=dict(os.environ, VERIF_REPO=d, VERIF_EVIDENCE_DIR=evd), capture_output=True, text=True, timeout=3000)
+            nv = sum(1 for l in r.stdout.splitlines() if l.startswith("VIOLATION"))
+            row = (sid, check, f"exit={r.returncode} violations={nv}", int(time.time() - t0))
+        except subprocess.TimeoutExpired:
+            row = (sid, check, "TIMEOUT", int(time.time() - t0))
         shutil.rmtree(evd, ignore_errors=True)
-        nv = sum(1 for l in r.stdout.splitlines() if l.startswith("VIOLATION"))
-        rows.append((sid, check, f"exit={r.returncode} violations={nv}", int(time.time() - t0)))
+        return row
     finally:
         shutil.rmtree(d, ignore_errors=True)
-    print(rows[-1], flush=True)
+
+
+rows = []
+with ThreadPoolExecutor(int(os.environ.get("REGRESS_JOBS", "4"))) as ex:
+    for row in ex.map(one, ids):
+        rows.append(row)
+        print(row, flush=True)
 with open(f"{root}/REGRESSION.md" if not sys.argv[1:] else "/tmp/REGRESSION_partial.md", "w") as f:
     f.write("# Seeded changes re-run against the current checks\n\nEach kept change applied to a scratch copy of `/repo/src` (HEAD), quick tier of the check recorded in its meta.json.\n\n| seed | check | result | seconds |\n|---|---|---|---|\n")
     for r in rows: f.write("| %s | %s | %s | %d |\n" % r)
